@@ -3,3 +3,4 @@ pub mod faults;
 pub mod faults_container;
 pub mod faults_struct;
 pub mod layout_c04;
+pub mod bitmap_c01;
